@@ -126,7 +126,8 @@ CHECKS = {
           "complement, reversal and circular shift by n then -n are identities for all arrays and all n in Z. FromMelody round trip and the "
           "signature/tatum arithmetic are evaluated on the implementation by the oracle.",
   "note": "Trusted: Coq kernel + vm_compute; adapters (tatum units). Evenness beyond 64 steps is only tested (thorough tier: 128). "
-          "apply_to_melody with start/end windows (ScoreRhythm) and expand=False are not modelled.",
+          "For apply_to_melody with start/end windows the model receives the cyclically repeated grid computed by the oracle (the window "
+          "arithmetic itself is oracle-checked: duration and pulse positions); expand=False is not modelled.",
  },
  "C18": {
   "text": "Theorems for EVERY mask built with & | ~ > (any nesting, any atoms): what the dispatch asks at chord, melody and note level "
@@ -179,12 +180,12 @@ CHECKS = {
           "notes, independently of the other tracks; each sounding row gives exactly one note-on (key 60+pitch, velocity, at the onset) and "
           "one note-off (at onset+duration), ordered by time with offs before ons at equal times; the running sum of the truncated per-event "
           "deltas is the exact tick position whenever onsets and ends are whole ticks; two parts share a track exactly when their instruments "
-          "have the same program (drums together). The whole export (incl. channels, program changes, tempo and signature metas) is modelled "
+          "have the same program (drums together); different programs never share a channel, a pitched program is never on channel 9 "
+          "and with at most 15 programs all channels are 0..15. The whole export (incl. channels, program changes, tempo and signature metas) is modelled "
           "and compared with the FILE read back by an independent SMF reader and by mido; the oracle checks the statement on the file. The "
           "pandas-3 defect that made every export raise was repaired.",
   "note": "Trusted: Coq kernel; gen_tables (INSTRUMENTS_DICT); mido's writer; pandas' stable multi-key sort; adapters. General MIDI numbering "
-          "is checked by the oracle for the instruments it uses, not for all 128 names. Channel-allocation facts are examples + correspondence, "
-          "not a theorem; more than 15 programs (channel overflow) is not explored.",
+          "is checked by the oracle for the instruments it uses, not for all 128 names. More than 15 programs (channel overflow) is outside the channel theorems and not explored.",
  },
  "C08": {
   "text": "Theorems: every cell of the exporter's three spelling tables (M, m, mm: 12 tonics x 7 degrees, regenerated from to_mxl.SCALES) names "
